@@ -74,7 +74,8 @@ def parseEv? (s : String) : Option Ev :=
   | ["O", dg, sel, mat] => do
     let dg ← parseList? parseDigest? dg; let mat ← parseHex? mat
     pure (.hsOk dg (if sel = "-" then "" else sel) mat)
-  | ["D", d] => (parseHex? d).map .sendData
+  | ["D", d] => (parseHex? d).map (.sendData · none)
+  | ["D", d, "F", k] => (parseHex? d).map (.sendData · (some k))
   | ["R", d] => (parseHex? d).map (.sendRtp · true)
   | ["R", d, "F"] => (parseHex? d).map (.sendRtp · false)
   | ["X"] => some .stop
@@ -131,7 +132,25 @@ def windowRun (wtx wrx : Nat) (rep : Bool) : List (Nat × Link) → List (Nat ×
     let r := l.send wtx wrx rep i a
     showPktOut r.2 :: windowRun wtx wrx rep ((ssrc, r.1) :: ls.filter (fun x => x.1 != ssrc)) ps
 
+/-- `<record hex | F>@<n>.<n>…` : what was appended to the BIO in this step and the sizes passed to `bio_read`. -/
+def parseStep? (s : String) : Option (Option Bytes × List Nat) :=
+  match s.splitOn "@" with
+  | [r, reads] => do
+    let r ← if r = "F" then some none else (parseHex? r).map some
+    let reads ← if reads = "" then some [] else (reads.splitOn ".").mapM parseNat?
+    pure (r, reads)
+  | _ => none
+
+def showDgrams (ds : List Bytes) : String :=
+  if ds.isEmpty then "none" else "+".intercalate (ds.map toHex)
+
 def handleTop : List String → String
+  | ["frame", pending, steps] =>
+    match parseHex? pending, parseList? parseStep? steps with
+    | some pending, some steps =>
+      let r := sendReads pending steps
+      showList showDgrams r.1 ++ " left:" ++ toHex r.2
+    | _, _ => "bad-op"
   | ["validate", dg, fps] => validateOne dg fps
   | "validateseq" :: rest => " ".intercalate (validateSeq rest)
   | ["window", wtx, wrx, rep, pkts] =>
